@@ -244,10 +244,16 @@ class ProbabilisticNode(Node):
             Removes the next states that have
             zero probability of reaching the final states.
         """
-        for _next_state in self.next_states:
-            next_state = state_list[_next_state[NEXT_STATE_IDX]]
-            if next_state.reach_probability == 0:
-                self.remove_path(_next_state)
+        surviving_states = [
+            _next_state for _next_state in self.next_states
+            if state_list[_next_state[NEXT_STATE_IDX]].reach_probability != 0]
+        if len(surviving_states) == len(self.next_states):
+            return
+        surviving_probability = sum(
+            _next_state[PROBABILITY] for _next_state in surviving_states)
+        self.next_states = [
+            (_next_state[PROBABILITY] / surviving_probability, _next_state[NEXT_STATE_IDX])
+            for _next_state in surviving_states]
 
     def remove_path(self, state_to_remove):
         """
@@ -327,10 +333,9 @@ class PlayerOne(Node):
             Removes the next states that have zero probability of reaching
             the final states.
         """
-        for _next_state in self.next_states:
-            next_state = state_list[_next_state[NEXT_STATE_IDX]]
-            if next_state.reach_probability == 0:
-                self.remove_path(_next_state)
+        self.next_states = [
+            _next_state for _next_state in self.next_states
+            if state_list[_next_state[NEXT_STATE_IDX]].reach_probability != 0]
 
     def remove_path(self, state_to_remove):
         """ 
